@@ -225,7 +225,7 @@ def run (line : String) : String :=
       let hits := match runSelectors sels esi evs with
         | .ok h => hitsStr h
         | .error p => panicStr p
-      let ref := hitsStr (Spec.Css.run sels esi evs)
+      let ref := hitsStr (Spec.Css.run Spec.Css.cssLeaf sels esi evs)
       let css := ",".intercalate (sels.map fun s => hexOrDash (strBytes (selListCss s)))
       s!"hits={hits} ref={ref} css={css} ast={dbgAst (Ast.ofSelectors sels)}"
     | _, _ => "bad-case"
